@@ -122,12 +122,19 @@ def exec_stmt(eng: Engine, fn: FnCtx, s: ast.stmt, st: State) -> Iterator[Outcom
 		rep = fn.contract.stmt_rewrites.get(txt)
 		if rep is not None:
 			eng.used_rewrites.add(f'{fn.label}: statement `{txt}`  ~>  `{rep.strip()}`')
-			body = ast.parse(rep).body
-			for b in body:
-				for n in ast.walk(b):
-					if isinstance(n, ast.stmt):
-						n._rewritten = True  # type: ignore[attr-defined]
-						n.lineno = ln
+			cache = fn.__dict__.setdefault('_rw_cache', {})
+			if txt not in cache:
+				body = ast.parse(rep).body
+				for b in body:
+					for n in ast.walk(b):
+						if isinstance(n, ast.stmt):
+							n._rewritten = True  # type: ignore[attr-defined]
+							n.lineno = ln
+						if isinstance(n, (ast.For, ast.While)):
+							# loops introduced by a statement rewrite are numbered after the function's own loops
+							fn.loop_ord[id(n)] = (max(fn.loop_ord.values()) + 1) if fn.loop_ord else 0
+				cache[txt] = body
+			body = cache[txt]
 			yield from exec_block(eng, fn, body, st)
 			return
 
